@@ -63,6 +63,31 @@ def _run(case, prog, factor, strict, clock):
             real_start = clock.t
             classes.add("sync")
             continue
+        if op[0] == "until":
+            # run(until=<number>) is paced like everything else: it returns when the wall clock has reached the stop's due instant
+            # (non-strict environments only - in strict mode the harness judges every single step)
+            t_stop = env.now + op[1]
+            if strict or not t_stop > env.now or env.peek() == inf:
+                continue
+            cur["real_start"] = real_start
+            env.h_expect_until(t_stop)
+            try:
+                env.run(until=t_stop)
+            except (HarnessError, WatchdogTrip, Inconclusive):
+                raise
+            except Violation:
+                kdsl.check_problems(h)
+                raise
+            except BaseException as e:
+                ended = kdsl._judge_raise(env, interp, e)
+                continue
+            kdsl.check_problems(h)
+            due_wall = real_start + (t_stop - init) * factor
+            if env.now != t_stop or clock.t < due_wall:
+                raise Violation("C20.never_early", f"run(until={t_stop}) returned with now={env.now} at wall {clock.t}; the stop is due at "
+                                                   f"wall instant {due_wall}", "C20.never_early/run-until")
+            classes.add("run(until=number) paced")
+            continue
         for _ in range(op[1]):
             nsteps += 1
             if nsteps > 3000:
@@ -172,7 +197,8 @@ def strategy(tier):
                           inits=(0, 0, 5, 2.5), min_instrs=2)
     op = kgen.weighted([(st.tuples(st.just("step"), st.integers(1, 5)).map(list), 4),
                         (st.tuples(st.just("burn"), st.sampled_from(BURNS)).map(list), 3),
-                        (st.just(["sync"]), 1)])
+                        (st.just(["sync"]), 1),
+                        (st.tuples(st.just("until"), st.sampled_from([0.5, 1, 0.25, 2, 3])).map(list), 2)])
     return st.fixed_dictionaries({
         "prog": progs,
         "factor": st.sampled_from(FACTORS),
@@ -197,6 +223,7 @@ PROP = Property(
           "Non-trivial = some step slept, some step was >= factor/2 late, and (strict) some lag within 25% of factor."),
     facets=[Facet("programs", strategy, run_case, quick=2500, thorough=15000,
                   essential=["step had to sleep", "step late by >= factor/2", "strict lag within 25% of factor", "strict raise", "refused step retried without sync()",
+                             "run(until=number) paced",
                              "early-returning sleep", "sleep without progress", "sync"])],
     assumptions=["wall clock is virtual: onl.sim.rt.monotonic/sleep replaced harness-side", "dyadic factors/delays/burns"],
 )
